@@ -92,11 +92,42 @@ Record fin_eff (s s' : istate) (t : key) (ti : tinfo) (rest : list key) : Prop :
   fe_fininreq : is_fininreq s' = rev (ti_reqby ti) ++ is_fininreq s;
   fe_inreq : is_inreq s' = is_inreq s ++ map dummy_of (map mkd (r_disc (rules t)));
   fe_fintasks : is_fintasks s' = rest;
-  fe_udb : is_usedb s' = false;
+  fe_udb : is_usedb s' = is_usedb s;
   fe_ep : is_epoch s' = is_epoch s;
   fe_no : forall rq, Oreq2 s rq -> iq_task rq <> Some t;
   fe_reqby : forall rq, In rq (ti_reqby ti) -> iq_input rq = t
 }.
+
+(* one finished task, with or without a database: the stored result of t is stamped (and written to the database); no other rule's
+   record changes - a rule that is not loaded is read from the database, whose other rows are untouched *)
+Lemma finish_task_rinfo s t rest ti k : aget (is_tasks s) t = Some ti -> kind_of s t = KComputing ->
+  rinfo_of (finish_task (upd_fintasks s rest) t) k =
+  if N.eqb k t then ri_append_deps (ti_disc ti) (ri_complete (is_epoch s) (rinfo_of s t)) else rinfo_of s k.
+Proof.
+  intros Hg Hk. unfold finish_task. change (aget (is_tasks (upd_fintasks s rest)) t) with (aget (is_tasks s) t). rewrite Hg. cbn zeta.
+  change (kind_of (upd_fintasks s rest) t) with (kind_of s t). rewrite Hk. cbn [kind_eqb check].
+  set (s2 := mod_ri (set_complete (upd_fintasks s rest) t) t (ri_append_deps (ti_disc ti))).
+  destruct (push_dummies_views (ti_disc ti) s2) as (P1 & _ & _ & P4 & _).
+  set (s3 := push_dummies s2 (ti_disc ti)) in *.
+  assert (Hl3 : loaded s3 t).
+  { apply P4. unfold loaded, s2, mod_ri, set_ri. cbn [is_rules upd_rules]. rewrite aget_aset_same. discriminate. }
+  assert (Hdbw : rinfo_of (db_write s3 t) k = rinfo_of s3 k).
+  { unfold db_write. destruct (is_usedb s3) eqn:Eu; auto. unfold rinfo_of. cbn [is_rules upd_db is_usedb is_db]. destruct (aget (is_rules s3) k) eqn:El; auto.
+    rewrite ?Eu. f_equal. apply SpecFrame.get_update_other. intros ->. apply Hl3. exact El. }
+  unfold retire_task, wake_task_waiters. autorewrite with iv. rewrite Hdbw, P1. unfold s2, set_complete. autorewrite with iv. rewrite N.eqb_refl.
+  destruct (N.eqb k t); reflexivity.
+Qed.
+
+Lemma finish_task_misc s t rest ti : aget (is_tasks s) t = Some ti -> kind_of s t = KComputing ->
+  let s' := finish_task (upd_fintasks s rest) t in is_usedb s' = is_usedb s /\ is_epoch s' = is_epoch s.
+Proof.
+  intros Hg Hk. cbn zeta. unfold finish_task. change (aget (is_tasks (upd_fintasks s rest)) t) with (aget (is_tasks s) t). rewrite Hg. cbn zeta.
+  change (kind_of (upd_fintasks s rest) t) with (kind_of s t). rewrite Hk. cbn [kind_eqb check].
+  set (s2 := mod_ri (set_complete (upd_fintasks s rest) t) t (ri_append_deps (ti_disc ti))).
+  destruct (push_dummies_views (ti_disc ti) s2) as (_ & _ & _ & _ & _ & _ & _ & _ & _ & _ & _ & P12 & _ & _ & P15).
+  assert (Hdw : forall sx, is_usedb (db_write sx t) = is_usedb sx /\ is_epoch (db_write sx t) = is_epoch sx) by (intros sx; unfold db_write; destruct (is_usedb sx) eqn:Eu; cbn; auto).
+  unfold retire_task, wake_task_waiters. autorewrite with iv. destruct (Hdw (push_dummies s2 (ti_disc ti))) as [-> ->]. rewrite P12, P15. auto.
+Qed.
 
 Lemma step_fintask_eff root x s t rest : Inv rules ctx0 s -> BInv root x s -> is_fintasks s = t :: rest ->
   exists ti, fin_eff s (step_fintask s) t ti rest.
@@ -104,10 +135,9 @@ Proof.
   intros HI (HBT & _ & _) Hq. unfold step_fintask. rewrite Hq.
   pose proof HI as (Hn & HT & HII & HS).
   destruct (t_ft ctx0 s HT t) as (ti & Hg & Hk & Hp); [rewrite Hq; now left|]. exists ti.
-  pose proof (b_udb _ _ _ _ _ _ HBT) as V2.
   assert (R : retired s (finish_task (upd_fintasks s rest) t) t ti rest (map dummy_of (ti_disc ti))).
   { apply finish_task_retired; auto; [apply HT|]. intros k. destruct (N.eq_dec k t) as [->|Hne]; [left; rewrite Hk; discriminate|now right]. }
-  pose proof (finish_task_rinfo_nodb s t rest ti) as RI. destruct (finish_task_misc_nodb s t rest ti V2 Hg Hk) as (Mu & Me).
+  pose proof (fun k => finish_task_rinfo s t rest ti k Hg Hk) as RI. destruct (finish_task_misc s t rest ti Hg Hk) as (Mu & Me).
   set (s' := finish_task (upd_fintasks s rest) t) in *.
   destruct R as [rt_nd0 rt_kind0 rt_paused0 rt_deferred0 rt_deps0 rt_sum_p0 rt_sum_d0 rt_tasks0 rt_toscan0 rt_fininreq0 rt_inreq0 rt_dummies0 rt_ready0 rt_fintasks0 rt_out0 rt_nf0].
   assert (Hnd : ti_disc ti = map mkd (r_disc (rules t))) by (apply (k2_disc _ _ _ _ _ _ _ (b_task _ _ _ _ _ _ HBT t ti Hg)); rewrite Hq; now left).
@@ -115,9 +145,9 @@ Proof.
   assert (Hz : (cnt_i t (cx_fi ctx0) + outstanding_count s t = 0)%nat) by (rewrite <- (i_wc rules ctx0 s HII t ti Hg); exact Hw0).
   destruct (no_ireq_of s t (cx_fi ctx0) Hz (t_nd_rules ctx0 s HT) (t_nd_tasks ctx0 s HT)) as (_ & Z2 & Z3 & Z4 & Z5).
   constructor; auto.
-  - intros k Hne. unfold res_of. rewrite (RI k V2 Hg Hk). apply N.eqb_neq in Hne. now rewrite Hne.
-  - unfold stored, cAt, bAt, deps, res_of. rewrite (RI t V2 Hg Hk), N.eqb_refl, Hnd. cbn. auto.
-  - intros k. rewrite (RI k V2 Hg Hk). destruct (N.eqb k t) eqn:E; auto. apply N.eqb_eq in E. subst k. auto.
+  - intros k Hne. unfold res_of. rewrite (RI k). apply N.eqb_neq in Hne. now rewrite Hne.
+  - unfold stored, cAt, bAt, deps, res_of. rewrite (RI t), N.eqb_refl, Hnd. cbn. auto.
+  - intros k. rewrite (RI k). destruct (N.eqb k t) eqn:E; auto. apply N.eqb_eq in E. subst k. auto.
   - intros t0. unfold task_of. rewrite rt_tasks0, aget_adel. reflexivity.
   - rewrite rt_inreq0, Hnd. reflexivity.
   - apply rt_fintasks0.
@@ -181,11 +211,10 @@ Qed.
 
 Lemma BT_fin : BT root s'.
 Proof.
-  destruct HB as ([T1 T2 T3 T4 T5 T6 T7] & _ & _).
+  destruct HB as ([T2 T3 T4 T5 T6 T7] & _ & _).
   assert (Htk : forall t0 y, task_of s' t0 = Some y -> t0 <> t /\ task_of s t0 = Some y).
   { intros t0 y. rewrite (fe_tasks _ _ _ _ _ E). destruct (N.eqb t0 t) eqn:E0; [discriminate|]. apply N.eqb_neq in E0. auto. }
   constructor.
-  - apply (fe_udb _ _ _ _ _ E).
   - now rewrite (fe_ep _ _ _ _ _ E).
   - intros k Hc. rewrite fe_stored. destruct (fe_curk2 k Hc) as [->|H]; [|now apply T3].
     apply (k2_fin _ _ _ _ _ _ _ (T6 t ti (fe_g _ _ _ _ _ E))). rewrite (fe_q _ _ _ _ _ E). now left.
